@@ -9,6 +9,7 @@ from ..astutil import inside
 from ..cfg import CFG, cond_strings
 from ..core import AnalysisError, walk_own
 from ..defuse import DefUse, Terms, show
+from ..events import container_events, root_name
 from ..paths import path_variants
 from ..tutil import TTUnknown, callee_of, select_ifexp, simp, tt_eval
 from ..defuse import key as tkey
@@ -126,13 +127,35 @@ def _get_next_row(ctx, f):
     loops = [n for n in ast.walk(f.node) if isinstance(n, ast.For)]
     ctx.require(len(loops) == 1, f"{f.qual}: expected one selection loop")
     loop = loops[0]
-    ctx.check(show(T.of(loop.iter)) == f"{p_heads}.items()",
+    it = T.of(loop.iter)
+    HEADS = ("param", p_heads)
+    by_items = it == ("mcall", HEADS, "items", (), ())
+    by_keys = it in (HEADS, ("mcall", HEADS, "keys", (), ()),
+                     ("call", "builtins.list", (HEADS,), ()))
+    ctx.check(by_items or by_keys,
               "C14a-scan-all-heads", f,
               "selection scans every current head",
               f"loop iterates {ast.unparse(loop.iter)}", node=loop)
-    ctx.require(isinstance(loop.target, ast.Tuple) and len(
-        loop.target.elts) == 2, f"{f.qual}: loop target is not (key, row)")
-    v_key, v_row = (e.id for e in loop.target.elts)
+    row_alias = None
+    if by_items:
+        ctx.require(isinstance(loop.target, ast.Tuple) and len(
+            loop.target.elts) == 2,
+            f"{f.qual}: loop target is not (key, row)")
+        v_key, v_row = (e.id for e in loop.target.elts)
+    else:
+        # for key in heads: row = heads[key]
+        ctx.require(isinstance(loop.target, ast.Name),
+                    f"{f.qual}: loop target is not a key")
+        v_key = loop.target.id
+        rows = [s_ for s_ in loop.body if isinstance(s_, ast.Assign)
+                and len(s_.targets) == 1 and isinstance(
+                    s_.targets[0], ast.Name)
+                and isinstance(s_.value, ast.Subscript)
+                and T.of(s_.value) == ("sub", HEADS, ("elem", it))]
+        ctx.require(len(rows) == 1, f"{f.qual}: the head row of the key is "
+                    "not looked up (row = heads[key])")
+        row_alias = rows[0]
+        v_row = rows[0].targets[0].id
     # assignments in the loop, grouped by the conditions (decided inside the
     # loop) under which they run: early-continue, nested and negated
     # spellings of the replacement test are equivalent here
@@ -140,7 +163,7 @@ def _get_next_row(ctx, f):
     uncond, cond = [], []
     for s in ast.walk(loop):
         if not (isinstance(s, ast.Assign) and len(s.targets) == 1
-                and isinstance(s.targets[0], ast.Name)):
+                and isinstance(s.targets[0], ast.Name)) or s is row_alias:
             continue
         nc = [(t, o) for t, o in cfg.necessary_conditions(s)
               if inside(t, loop)]
@@ -163,11 +186,13 @@ def _get_next_row(ctx, f):
         assigned[s.targets[0].id] = s.value
     v_score = uncond[0][0].targets[0].id
     sc_t = T.of(uncond[0][0].value)
-    ok_sc = show(sc_t) in (f"float({v_row_term(T, loop)}[{p_col}])",) or \
-        (sc_t[0] == "call" and sc_t[1] == "builtins.float"
-         and sc_t[2] and sc_t[2][0][0] == "sub"
-         and sc_t[2][0][2] == ("param", p_col)
-         and sc_t[2][0][1][0] in ("value", "item", "elem"))
+    row_t = sc_t[2][0][1] if (sc_t[0] == "call" and sc_t[2]
+                              and sc_t[2][0][0] == "sub") else ("x",)
+    ok_sc = (sc_t[0] == "call" and sc_t[1] == "builtins.float"
+             and sc_t[2] and sc_t[2][0][0] == "sub"
+             and sc_t[2][0][2] == ("param", p_col)
+             and (row_t[0] in ("value", "item", "elem")
+                  or row_t == ("sub", HEADS, ("elem", it))))
     ctx.check(ok_sc, "C14a-candidate-score", f,
               "candidate score is the head row's score column as a number",
               f"candidate score is {show(sc_t, 100)}", node=loop)
@@ -222,43 +247,68 @@ def _get_next_row(ctx, f):
                   f"'{nm}' starts as None (no head selected yet)",
                   f"initial definitions of {nm}: "
                   f"{[show(T.of_def(d), 40) for d in ds]}", node=loop)
-    # advance: heads[max_key] = next(iters[max_key]) ; on StopIteration
-    # delete both
-    tries = [n for n in ast.walk(f.node) if isinstance(n, ast.Try)]
-    ctx.require(len(tries) == 1, f"{f.qual}: expected one try around the "
-                "advance")
-    tr = tries[0]
-    adv = [s for s in tr.body if isinstance(s, ast.Assign)]
+    # advance / retire, read off the container update events
+    evs = container_events(f.node, T, cfg)
+    HEADS_N, ITERS_N = p_heads, p_iters
+
+    def is_key(t):
+        """the selected key, through aliases"""
+        return t[0] == "var" and t[1] == n_key
+
+    stores = [e for e in evs if e.kind == "store"
+              and root_name(e.recv) == HEADS_N and not inside(e.stmt, loop)]
     ok_adv = False
-    why = "advance statement not found"
-    if len(adv) == 1 and isinstance(adv[0].targets[0], ast.Subscript):
-        tgt = adv[0].targets[0]
-        val = adv[0].value
-        if isinstance(val, ast.Call) and ast.unparse(val.func) == "next" \
-                and isinstance(val.args[0], ast.Subscript):
-            ok_adv = (ast.unparse(tgt.value) == p_heads
-                      and ast.unparse(tgt.slice) == n_key
-                      and ast.unparse(val.args[0].value) == p_iters
-                      and ast.unparse(val.args[0].slice) == n_key)
-            why = (f"advance is {ast.unparse(adv[0])}; expected "
-                   f"{p_heads}[{n_key}] = next({p_iters}[{n_key}])")
+    why = f"stores into {p_heads}: {[ast.unparse(e.stmt)[:80] for e in stores]}"
+    nxt = None
+    if len(stores) == 1 and is_key(stores[0].key):
+        v = stores[0].value
+        c = callee_of(v)
+        if c and c[0] == "builtins.next" and len(c[1]) == 1 and \
+                c[1][0][0] == "sub" and root_name(c[1][0][1]) == ITERS_N \
+                and is_key(c[1][0][2]):
+            ok_adv = True
+            nxt = v
     ctx.check(ok_adv, "C14a-advance-selected-only", f,
               "only the selected iterator advances, into the selected slot",
-              why, node=tr)
-    ok_del = False
-    for h in tr.handlers:
-        if h.type is not None and "StopIteration" in ast.unparse(h.type):
-            dels = [ast.unparse(t) for s in h.body
-                    if isinstance(s, ast.Delete) for t in s.targets]
-            ok_del = sorted(dels) == sorted(
-                [f"{p_heads}[{n_key}]", f"{p_iters}[{n_key}]"])
-            why = f"handler deletes {dels}"
+              why + f"; expected {p_heads}[key] = next({p_iters}[key]) with "
+              "the selected key", node=stores[0].node if stores else f.node)
+    next_stmts = [cfg.stmt_of(n) for n in walk_own(f.node)
+                  if isinstance(n, ast.Call) and isinstance(
+                      n.func, ast.Name) and n.func.id == "next"]
+    ctx.require(len(next_stmts) == 1, f"{f.qual}: expected one next() call")
+    dels = [e for e in evs if e.kind == "del"]
+    ok_del = sorted(root_name(e.recv) or "?" for e in dels) == sorted(
+        [HEADS_N, ITERS_N]) and all(is_key(e.key) for e in dels)
+    why = f"deletes {[ast.unparse(e.stmt)[:60] for e in dels]}"
+    if ok_del:
+        # retiring and refilling exclude each other, and retiring happens
+        # only after next() has raised StopIteration
+        tr = cfg.enclosing(next_stmts[0], (ast.Try,))
+        ok_try = tr is not None and any(
+            h.type is not None and "StopIteration" in ast.unparse(h.type)
+            for h in tr.handlers)
+        dn = {cfg.node_of(e.stmt).id for e in dels}
+        nn = cfg.node_of(next_stmts[0]).id
+        excl = True
+        if stores:
+            sn = cfg.node_of(stores[0].stmt).id
+            excl = not (dn & cfg.reachable_normally(sn)) and not any(
+                sn in cfg.reachable_normally(d_) for d_ in dn)
+        # same block: the two deletions run under the same conditions
+        same = len({tuple(cfg.conditions(e.stmt)) for e in dels}) == 1
+        ok_del = ok_try and excl and same
+        if not ok_try:
+            why = "next() is not guarded by 'except StopIteration'"
+        elif not excl:
+            why = "a pass can both refill and retire the selected input"
+        elif not same:
+            why = "slot and iterator are removed under different conditions"
     ctx.check(ok_del, "C14a-exhaustion-deletes-both", f,
               "an exhausted input loses its slot and its iterator together",
-              why, node=tr)
+              why, node=dels[0].node if dels else f.node)
     rets = [n for n in ast.walk(f.node) if isinstance(n, ast.Return)]
-    ok_ret = len(rets) == 1 and isinstance(rets[0].value, ast.Name) and \
-        rets[0].value.id == n_row
+    ok_ret = len(rets) == 1 and rets[0].value is not None and \
+        T.of(rets[0].value)[:2] == ("var", n_row)
     ctx.check(ok_ret, "C14a-returns-selected-row", f,
               "the row returned is the one selected before advancing",
               f"returns {[ast.unparse(r.value) for r in rets]}",
@@ -267,7 +317,7 @@ def _get_next_row(ctx, f):
     if ok_ret:
         rn = cfg.node_of(rets[0]).id
         ok = cfg.every_path_passes(cfg.entry.id, rn,
-                                   {cfg.node_of(tr.body[0]).id})
+                                   {cfg.node_of(next_stmts[0]).id})
         ctx.check(ok, "C14a-advance-on-every-path", f,
                   "every call advances (or retires) the selected input",
                   "some path returns without advancing the selected "
